@@ -110,6 +110,11 @@ static void run_idft(Ctx& ctx, const Item& it) {
       DftShape s; s.N = N; s.rs = rs; s.as = as; s.variant = variant; s.alias = 1;
       DftShape sp = s; sp.alias = 0;
       alias_pair(ctx, gen_dft(mod, t, s, it.cfg.name), gen_dft(mod, t, sp, it.cfg.name), true);
+      if (t == FFT64) {  // coefficients of magnitude 2^50 (the wide conversion kernel): in place must equal out of place
+        s.big = sp.big = 1;
+        alias_pair(ctx, gen_dft(mod, t, s, it.cfg.name), gen_dft(mod, t, sp, it.cfg.name), true);
+        s.big = sp.big = 0;
+      }
     }
   }
 }
